@@ -9,7 +9,7 @@ VALUE_KINDS = ["bool", "int", "float", "string", "loctext", "bytes", "guid", "li
 def value_gen(rng):
     for _ in range(20):
         v = c08.gen_value(rng, kinds=VALUE_KINDS)
-        if v is not None and not c08.causes(v): return v
+        if v is not None and not c08.causes(v) and c08.impl_encode(v, True)[0] == "ok": return v
     return None
 def value_xml(v): return v.xml_encode(include_xmlns=True)
 
